@@ -6,6 +6,7 @@
      pkgblock <conf> <cur> <pending> <claimable> <events> <locked> <txs> <issued>
               → `<pending> <claimable> <events> <locked> <bump candidates> accept=<blockOk> wf=<wfB of the state before> <issued-ok | issued-BAD:…>`
      pkgagg <cur> <requests>     → `<requests after the aggregation loop>`
+     pkgweight <anchors> <dest script len> <actual weight of the broadcast tx> <kind+…>   → `ge …` iff package_weight ≥ actual
 
    Formats (as written by PackageTemplate::verif_dump / OnchainTxHandler::verif_pkg_dump; lists joined by `;`, `-` = empty):
      package   `<MP|MU|U>,<counterparty_spendable_height>,<feerate_previous>,<height_timer>,<txid8:vout~kind+…|->`
@@ -127,6 +128,13 @@ def pkgStep (ws : List String) : Option String :=
   | ["pkgagg", cur, reqs] =>
     some <| match (listOf' reqs).mapM pkgOf with
     | some rs => joinOr ";" ((aggregate (nat! cur) rs).map showPkg)
+    | none => "bad-op"
+  | ["pkgweight", anchors, destLen, actual, kinds] =>
+    some <| match (splitC kinds '+').mapM memberOf with
+    | some ms =>
+      let p : Package String := { inputs := ms.map fun m => ("", m), mall := .untractable, spendable := 0, feerate := 0, timer := 0 }
+      let predicted := p.weight (anchors == "1") (nat! destLen)
+      if nat! actual ≤ predicted then "ge" else s!"UNDER predicted={predicted}"
     | none => "bad-op"
   | _ => none
 
